@@ -17,6 +17,7 @@ type GenOpts struct {
 	Empties   bool  // retained empty v2 batches
 	BigValues bool
 	StartOff  int64
+	Unordered bool // formats in any order (a real log never goes back from v2 to v0/v1)
 }
 
 func genBytes(r *rand.Rand, big bool, nullable bool) []byte {
@@ -48,8 +49,13 @@ func GenLayout(r *rand.Rand, nrec int, o GenOpts) Layout {
 	var l Layout
 	next := o.StartOff // next free offset
 	ts := int64(1_600_000_000_000) + int64(r.Intn(1000))
+	lastFmt := 0
 	for nrec > 0 || (o.Empties && r.Intn(6) == 0 && len(l) < 40) {
 		f := o.Formats[r.Intn(len(o.Formats))]
+		if !o.Unordered && f < lastFmt {
+			f = lastFmt
+		}
+		lastFmt = f
 		c := o.Codecs[r.Intn(len(o.Codecs))]
 		if o.Empties && f == 2 && r.Intn(5) == 0 || nrec == 0 {
 			// a retained empty v2 batch
